@@ -165,6 +165,7 @@ func verify(args []string) int {
 		obls = append(obls, r.Obls...)
 	}
 	obls = append(obls, eng.CensusObligations(*prop)...)
+	obls = append(obls, eng.RegexObligations(*prop)...)
 	if len(eng.SpecErrors) > 0 {
 		for _, e := range eng.SpecErrors {
 			undecided = append(undecided, "contract error: "+e)
@@ -224,6 +225,8 @@ func verify(args []string) int {
 		case "canary-ok", "canary-inconclusive":
 		case "canary-vacuous":
 			canaryBad = append(canaryBad, o.Obl.Name)
+		case "solver-error":
+			undecided = append(undecided, "ill-formed SMT for "+o.Obl.Name+": "+trunc(o.Output, 300))
 		default:
 			failed = append(failed, o)
 		}
